@@ -7,3 +7,4 @@ pub mod eng;
 pub mod hist;
 pub mod memkv;
 pub mod util;
+pub mod typeid;
